@@ -136,6 +136,15 @@ def sample_loops(fn_node):
     return out
 
 
+def _stmts_between(fn_node, a, b):
+    """statements of the function (at any depth, outside a and b) that lie between the end of loop a and the start of loop b"""
+    out = []
+    for n in ast.walk(fn_node):
+        if isinstance(n, ast.stmt) and n is not a and n is not b and a.end_lineno < n.lineno and n.end_lineno < b.lineno:
+            out.append(n)
+    return out
+
+
 def rule_loop_carried(ctx):
     n_loops = 0
     n_stores = 0
@@ -150,6 +159,17 @@ def rule_loop_carried(ctx):
             cf.block(loop.body, set(tnames))
             ctx.check(not cf.hits, 'R10.1/no-loop-carried', con, f"{len(interest)} names assigned in the body, none readable from a previous iteration",
                       "variables may carry a value from the previous sample into this one: " + ", ".join(f"{v} (line {ln})" for v, ln in sorted(cf.hits.items())), f.where(loop))
+            # a name last assigned inside an earlier loop of the function holds the value of that loop's last sample: it must not be
+            # read in this loop before this loop defines it (unless it was re-initialised between the two loops)
+            leaked = set()
+            for loop2, _ in sample_loops(f.node):
+                if loop2 is not loop and loop2.end_lineno < loop.lineno:
+                    between = [s for s in _stmts_between(f.node, loop2, loop)]
+                    leaked |= (assigned_names(loop2.body) | {m.id for m in ast.walk(loop2.target) if isinstance(m, ast.Name)}) - assigned_names(between)
+            lf = CarriedFinder(leaked - tnames)
+            lf.block(loop.body, set(tnames))
+            ctx.check(not lf.hits, 'R10.1/no-leftover-from-earlier-loop', con, f"{len(leaked)} names left over from earlier per-sample loops, none read before being redefined",
+                      "values left over from the last sample of an earlier loop are read for every sample: " + ", ".join(f"{v} (line {ln})" for v, ln in sorted(lf.hits.items())), f.where(loop))
             # every store into per-sample tables is keyed by this loop's sample
             bad = []
             for st in ast.walk(loop):
@@ -229,6 +249,9 @@ def rule_assemble_stages(ctx):
 
 
 def run(ctx):
+    from .c08 import rule_reseed
+    # per-sample independence of the two sampling programs relies on every fit starting from the seeded generator state
+    rule_reseed(ctx, rule='R10.1/per-fit-reseed', fits=['mchap.assemble.mcmc.DenovoMCMC.fit', 'mchap.calling.classes.CallingMCMC.fit'])
     rule_loop_carried(ctx)
     rule_pool(ctx)
     rule_assemble_stages(ctx)
